@@ -716,6 +716,8 @@ func runConcConn(c *simkit.Choice, r *simkit.Rec) {
 	nr := [2]int{c.Range(1, 2, simkit.LScen), c.Range(1, 2, simkit.LScen)}
 	closer := c.Bool(1, 2, simkit.LScen)
 	closeAfter := c.Range(0, 400, simkit.LScen)
+	ncloser := 1 + c.Weighted([]int{2, 2, 1}, simkit.LScen) // concurrent Close calls on the client side
+	closeAfter2 := c.Range(0, 60, simkit.LScen)
 	type wplan struct{ bufs []string }
 	var wp [2][]wplan
 	id := 0
@@ -760,7 +762,39 @@ func runConcConn(c *simkit.Choice, r *simkit.Rec) {
 	// slots are handed out in norace code so that tasks never share a slot
 	slot := func(d int) *connOpRec { return concSlot(&nhist[d], hist[d]) }
 	ci := &closeInfo{}
+	allClosed := &simkit.Flag{Name: "all-closed"}
 
+	// sequential reference of the same code: Close, Close, Write on a connection of its own
+	var seqClose2, seqLate string
+	probeDone := false
+	if closer {
+		pa, pb := s.NewConnPair("pcli", "psrv", simkit.NetCfg{}, simkit.NetCfg{})
+		pccfg := &gmtls.Config{GMSupport: gmtls.NewGMSupport(), Rand: simkit.NewStream(77), Time: simTime(s, 0), RootCAs: pki.Pool("caA"), ServerName: "server.sim", CipherSuites: []uint16{suite}, SessionTicketsDisabled: true}
+		pscfg := &gmtls.Config{GMSupport: gmtls.NewGMSupport(), Rand: simkit.NewStream(78), Time: simTime(s, 0), Certificates: gmServerCerts("srv-sign", "srv-enc"), CipherSuites: []uint16{suite}, SessionTicketsDisabled: true}
+		s.Spawn("probe-srv", 9, func() {
+			pc := gmtls.Server(pb, pscfg)
+			if pc.Handshake() == nil {
+				buf := make([]byte, 16)
+				for {
+					if _, err := pc.Read(buf); err != nil {
+						break
+					}
+				}
+			}
+			pc.Close()
+		})
+		s.Spawn("probe-cli", 8, func() {
+			pc := gmtls.Client(pa, pccfg)
+			if pc.Handshake() != nil {
+				return
+			}
+			pc.Close()
+			seqClose2 = errStr(pc.Close())
+			_, e := pc.Write([]byte("late"))
+			seqLate = errStr(e)
+			probeDone = true
+		})
+	}
 	for side := 0; side < 2; side++ {
 		side := side
 		conn := conns[side]
@@ -830,22 +864,41 @@ func runConcConn(c *simkit.Choice, r *simkit.Rec) {
 				})
 			}
 			if side == 0 && closer {
-				s.Spawn("cli-closer", 0, func() {
-					for k := 0; k < closeAfter; k++ {
-						simkit.Yield(-20)
-					}
-					h := slot(0)
-					if h != nil {
-						h.in = connIn{kind: 2}
-						h.call = int64(s.Seq())
-					}
-					conn.Close()
-					ret := int64(s.Seq())
-					ci.returned(ret)
-					if h != nil {
-						h.ret = ret
-					}
-				})
+				for q := 0; q < ncloser; q++ {
+					q := q
+					s.Spawn(fmt.Sprintf("cli-closer%d", q), 0, func() {
+						wait := closeAfter
+						if q > 0 {
+							wait = closeAfter + (q-1)*closeAfter2
+						}
+						for k := 0; k < wait; k++ {
+							simkit.Yield(-20)
+						}
+						h := slot(0)
+						if h != nil {
+							h.in = connIn{kind: 2}
+							h.call = int64(s.Seq())
+						}
+						err := conn.Close()
+						ret := int64(s.Seq())
+						ci.returned(ret)
+						ci.closeResult(q, err)
+						if ci.allClosed(ncloser) {
+							allClosed.Set()
+						}
+						if h != nil {
+							h.ret = ret
+						}
+						if q == 0 {
+							// once every Close has returned, one more Write: it must fail the
+							// way a Write after a sequential Close fails
+							s.WaitFlag(allClosed)
+							_, werr := conn.Write([]byte("late"))
+							ci.lateErr = errStr(werr)
+							ci.lateDone = true
+						}
+					})
+				}
 				return
 			}
 			// orderly shutdown: after own writers are done, close the write side
@@ -895,6 +948,24 @@ func runConcConn(c *simkit.Choice, r *simkit.Rec) {
 		if lateWriteOK != "" {
 			r.Violate("write-after-close", site+".Write", fmt.Sprintf("a Write (%q...) invoked after Close had returned succeeded", lateWriteOK[:1]))
 			return
+		}
+		if probeDone && ci.allClosed(ncloser) {
+			// some sequential order of the Close calls: all but the first behave like a
+			// second sequential Close (same code, run alone on the probe connection)
+			other := 0
+			for q := 0; q < ncloser; q++ {
+				if ci.closeErrs[q] != seqClose2 {
+					other++
+				}
+			}
+			if other > 1 {
+				r.Violate("close-not-sequential", site+".Close", fmt.Sprintf("%d concurrent Close calls returned %q; in any sequential order all but one return %q", ncloser, ci.closeErrs[:ncloser], seqClose2))
+				return
+			}
+			if ci.lateDone && ci.lateErr != seqLate {
+				r.Violate("close-not-sequential", site+".Write", fmt.Sprintf("Write after %d concurrent Close calls returned %q; after a sequential Close it returns %q", ncloser, ci.lateErr, seqLate))
+				return
+			}
 		}
 		// with an abrupt Close the server may wait forever for a close_notify that
 		// will not come only if the transport stays open; Close closes it, so
@@ -970,7 +1041,24 @@ type closeInfo struct {
 	done      bool
 	ret       int64
 	lateWrite string
+	nclosed   int
+	closeErrs [4]string
+	lateErr   string
+	lateDone  bool
 }
+
+//go:norace
+func (c *closeInfo) closeResult(q int, err error) {
+	if err == nil {
+		c.closeErrs[q] = "<nil>"
+	} else {
+		c.closeErrs[q] = err.Error()
+	}
+	c.nclosed++
+}
+
+//go:norace
+func (c *closeInfo) allClosed(n int) bool { return c.nclosed >= n }
 
 //go:norace
 func (c *closeInfo) returned(seq int64) { c.ret = seq; c.done = true }
